@@ -11,7 +11,7 @@ from lark.exceptions import UnexpectedInput, GrammarError
 
 ID = 'C09'
 LEVEL = 'exploration'
-RULE = ('enumerate every pair 0<=n<=m<=M (M=70 quick, 200 thorough; x~n when n==m) for item kinds '
+RULE = ('enumerate every pair 0<=n<=m<=M (M=70 quick, 200 thorough; x~n when n==m; plus Hypothesis-sampled pairs with m up to 400/700 checked at k around the bounds) for item kinds '
         '{named terminal, anonymous literal in !rule, rule, group (X Y), template argument, inside a terminal} under LALR for '
         'every k in 0..m+2 and under Earley for k around the bounds; plus generated sequences of 2-3 adjacent/nested '
         'repetitions with ? * + ~. Non-trivial = a distinct (kind, n, m) case with m >= 50 (compiled through factored helper '
@@ -39,8 +39,8 @@ def grammar_for(kind, n, m):
     raise ValueError(kind)
 
 
-def ks_for(parser, n, m):
-    if parser == 'lalr':
+def ks_for(parser, n, m, sparse=False):
+    if parser == 'lalr' and not sparse:
         return list(range(0, m + 3))
     ks = {0, 1, n - 1, n, n + 1, (n + m) // 2, m - 1, m, m + 1, m + 7}
     return sorted(k for k in ks if k >= 0)
@@ -80,7 +80,8 @@ def check(case, ctx):
     except Exception as e:
         raise Violation('construction raised %s' % type(e).__name__, case=case, error=str(e)[:300])
     ctx.label('kind:' + kind, 'parser:' + parser, 'factored' if m >= 50 else 'naive')
-    for k in ks_for(parser, n, m):
+    sparse = bool(case.get('sparse'))
+    for k in ks_for(parser, n, m, sparse):
         txt = '<' + unit * k + '>'
         try:
             t = p.parse(txt); acc = True
@@ -211,15 +212,24 @@ def check_combo(case, ctx):
         ctx.nontrivial(['combo', parts, ks, case['parser']], sample={'grammar': g, 'text': txt, 'counts': ks, 'accepted': acc})
 
 
+def sampled_pairs(maxm):
+    return st.tuples(st.integers(57, maxm), st.integers(0, 10**6), st.sampled_from(KINDS), st.sampled_from(['lalr', 'lalr', 'earley']),
+                     st.booleans()).map(
+        lambda t: {'kind': t[2], 'm': t[0], 'n': (t[0] if t[4] and t[1] % 3 == 0 else t[1] % (t[0] + 1)) or (1 if t[2] == 'interm' else 0),
+                   'parser': t[3], 'sparse': True})
+
+
 def phases(tier):
     if tier == 'thorough':
         return [
             Phase('pairs-lalr-M200', 'enumerate', cases=enum_pairs(200, 'lalr', KINDS), exhaustive=True),
             Phase('pairs-earley-M120', 'enumerate', cases=enum_pairs(120, 'earley', ('term', 'rule', 'group', 'interm')), exhaustive=True),
+            Phase('pairs-sampled-to-700', 'hypothesis', strategy=sampled_pairs(700), max_examples=12000),
             Phase('combos', 'hypothesis', strategy=combo_strategy(), max_examples=40000, check=check_combo),
         ]
     return [
         Phase('pairs-lalr-M70', 'enumerate', cases=enum_pairs(70, 'lalr', KINDS), exhaustive=True),
         Phase('pairs-earley-M56', 'enumerate', cases=enum_pairs(56, 'earley', ('term', 'group', 'interm')), exhaustive=True),
+        Phase('pairs-sampled-to-400', 'hypothesis', strategy=sampled_pairs(400), max_examples=9600),
         Phase('combos', 'hypothesis', strategy=combo_strategy(), max_examples=4000, check=check_combo),
     ]
